@@ -127,7 +127,9 @@ Section Acks.
     - (* RStepDown *)
       inversion H; subst. apply invp_frame; [assumption| | |]; intros; try (eapply p_logs; eassumption); try assumption; lia.
     - (* RReplicate *)
-      destruct (raft_ok s (RReplicate m k)) eqn:Hr; [|discriminate]. inversion H; subst; clear H.
+      destruct (raft_ok s (RReplicate m k)) eqn:Hr; [|discriminate]. cbn [andb] in H.
+      destruct (match leader s with Some l => Nat.leb (efirst (nodes s l)) (length (elog (nodes s m))) | None => false end); [|discriminate].
+      inversion H; subst; clear H.
       destruct (H_repl _ _ _ Hr) as (l & Hl & _). cbn [raft_effect]. rewrite Hl.
       apply invp_frame; [assumption| | |]; intros m0; node_cases m0 m; cbn; intros;
         try (eapply p_logs; eassumption); try assumption; try lia.
@@ -184,12 +186,32 @@ Section Acks.
         try (eapply p_logs; eassumption); try assumption; try lia.
     - (* TruncPropose *)
       destruct (leader s) as [l|] eqn:Hl; [|discriminate].
-      destruct (avail (nodes s l) && all_up s && negb (Nat.eqb (snap (nodes s l)) 0)); [|discriminate].
+      match type of H with (if ?b then _ else _) = _ => destruct b; [|discriminate] end.
       inversion H; subst. cbn.
       apply invp_frame; [assumption| | |]; intros m0; node_cases m0 l; cbn; intros;
         try (eapply p_logs; eassumption); try assumption; try lia.
       match goal with He : In _ (_ ++ _) |- _ => apply in_app_or in He; destruct He as [He | [He | [] ] ] end;
         [eapply p_logs; eassumption|subst; exact I].
+    - (* TruncForce *)
+      destruct (leader s) as [l|] eqn:Hl; [|discriminate].
+      match type of H with (if ?b then _ else _) = _ => destruct b; [|discriminate] end.
+      inversion H; subst. cbn.
+      apply invp_frame; [assumption| | |]; intros m0; node_cases m0 l; cbn; intros;
+        try (eapply p_logs; eassumption); try assumption; try lia.
+      match goal with He : In _ (_ ++ _) |- _ => apply in_app_or in He; destruct He as [He | [He | [] ] ] end;
+        [eapply p_logs; eassumption|subst; exact I].
+    - (* TruncLocal *)
+      match type of H with (if ?b then _ else _) = _ => destruct b; [|discriminate] end.
+      inversion H; subst. cbn.
+      apply invp_frame; [assumption| | |]; intros m0; node_cases m0 n; cbn; intros;
+        try (eapply p_logs; eassumption); try assumption; try lia.
+    - (* RSnapshot *)
+      destruct (leader s) as [l|] eqn:Hl; [|discriminate].
+      match type of H with (if ?b then _ else _) = _ => destruct b; [|discriminate] end.
+      inversion H; subst. cbn.
+      apply invp_frame; [assumption| | |]; intros m0; node_cases m0 m; cbn; intros;
+        try (eapply p_logs; eassumption); try assumption; try lia.
+      eapply p_logs; [eassumption|]. eapply In_firstn; eassumption.
     - (* Kill *)
       destruct (up (nodes s n)); [|discriminate]. inversion H; subst. cbn.
       apply invp_frame; [assumption| | |]; intros m0; node_cases m0 n; cbn; intros;
